@@ -59,6 +59,8 @@ def configs(tier):
             dict(N=3, beta_prev=0.0, tol=0.25, D=4, pop="ll"),
             dict(N=2, beta_prev=0.5, tol=0.25, D=8, pop="ll"),
             dict(N=2, beta_prev=0.0, tol=0.25, D=4, pop="all"),
+            # late in the ladder the floor beta_prev + min_step lies above 1: clamp
+            dict(N=2, beta_prev=0.75, tol=0.25, D=8, pop="ll", only_ms=("half", "cap"), only_targets=("sym",)),
         ]
     else:
         grid = [
@@ -67,26 +69,62 @@ def configs(tier):
             dict(N=3, beta_prev=0.0, tol=0.125, D=8, pop="ll"),
             dict(N=3, beta_prev=0.5, tol=0.25, D=8, pop="ll"),
             dict(N=3, beta_prev=0.0, tol=0.25, D=4, pop="all"),
+            dict(N=3, beta_prev=0.75, tol=0.25, D=8, pop="ll", only_ms=("half", "cap"), only_targets=("sym",)),
+            dict(N=3, beta_prev=0.5, tol=0.125, D=8, pop="ll", only_ms=("cap",), only_targets=("sym",)),
         ]
     for g in grid:
         targets = [("sym", None), ("ramp", 1.0)] if g["pop"] == "ll" else [("float", 0.5)]
         if tier == "thorough" and g["pop"] == "ll" and g["N"] == 3 and g["tol"] == 0.25 and g["beta_prev"] == 0.0:
             targets.append(("ramp", 2.0))
         for tk, tv in targets:
+            if g.get("only_targets") and tk not in g["only_targets"]:
+                continue
             for ms in ("zero", "half", "cap"):
                 if tk == "ramp" and ms != "zero":
                     continue
-                c = dict(g)
+                if g.get("only_ms") and ms not in g["only_ms"]:
+                    continue
+                c = {k: v for k, v in g.items() if not k.startswith("only_")}
                 c.update(kind="step", target=tk, target_arg=tv, min_step=ms)
                 c["name"] = f"step-N{g['N']}-b{g['beta_prev']}-tol{g['tol']}-{g['pop']}-{tk}{tv or ''}-{ms}"
                 c["timeout_ms"] = 120000 if g["D"] <= 4 else 900000
                 if g["N"] >= 3:
                     c["split_depth"] = 3
                 out.append(c)
+    # histories of the public setter on ONE sampler object (what successive sample() calls do):
+    # the target in force is the LAST one set
+    for k, hist in enumerate(SETTER_HISTORIES):
+        g = dict(N=2 if tier == "quick" else 3, beta_prev=0.0 if k % 2 == 0 else 0.5, tol=0.25, pop="ll")
+        g["D"] = 4 if g["beta_prev"] == 0.0 else 8
+        c = dict(g)
+        c.update(kind="step", target="history", target_arg=k, min_step="zero")
+        c["name"] = f"step-N{g['N']}-b{g['beta_prev']}-tol0.25-ll-history{k}-zero"
+        c["timeout_ms"] = 120000 if g["D"] <= 4 else 900000
+        out.append(c)
     # the non-adaptive branch (fixed step), concrete
     out.append(dict(kind="fixed_step", name="fixed-step-branch", N=2, D=1))
     out.append(dict(kind="setter", name="target-setter", N=2, D=1))
     return out
+
+
+# (value given to the public setter, rate) in order; the last entry is in force
+SETTER_HISTORIES = [
+    [((0.25, 0.875), 1.0), (0.625, 1.0)],
+    [(0.625, 1.0), ((0.25, 0.875), 1.0)],
+    [((0.25, 0.875), 2.0), (0.5, 2.0), (0.75, 1.0)],
+    [(0.375, 1.0), ((0.5, 0.75), 1.0), ((0.125, 0.625), 2.0)],
+]
+
+
+def _apply_history(smp, k):
+    """Drive the public setter; return target(b) of the last entry as a python function."""
+    for value, rate in SETTER_HISTORIES[k]:
+        smp.target_efficiency = value
+        smp.target_efficiency_rate = rate
+    value, rate = SETTER_HISTORIES[k][-1]
+    if isinstance(value, tuple):
+        return lambda b: value[0] + (value[1] - value[0]) * float(b) ** rate
+    return lambda b: value
 
 
 def harness(cfg, props):
@@ -123,6 +161,9 @@ def _h_step(cfg, props):
         if cfg["target"] == "float":
             smp.target_efficiency = cfg["target_arg"]
             target_at = lambda b: core.rv(cfg["target_arg"])  # noqa: E731
+        elif cfg["target"] == "history":
+            tf = _apply_history(smp, cfg["target_arg"])
+            target_at = lambda b: core.rv(float(tf(b)))  # noqa: E731
         elif cfg["target"] == "sym":
             t = sx.sym("teff")
             ctx.add_assume(z3.And(sx.term(t) > 0, sx.term(t) < 1))
@@ -217,6 +258,8 @@ def np_step_setup(cfg, env):
     smp.target_efficiency_rate = 1.0
     if cfg["target"] == "float":
         smp.target_efficiency = cfg["target_arg"]
+    elif cfg["target"] == "history":
+        smp._verif_target = _apply_history(smp, cfg["target_arg"])
     elif cfg["target"] == "sym":
         smp.target_efficiency = float(_get(env, "teff", 0.5))
     else:
@@ -306,7 +349,17 @@ def replay_step(cex, props):
             return False, "exception (a C06 matter)", info
         info["beta"] = beta
         w = s.log_likelihood + s.log_prior - s.log_q
-        target = smp.current_target_efficiency(bp)
+        # the target in force: what the harness set (never the sampler's own
+        # bookkeeping, which is part of what is being checked)
+        if cfg["target"] == "history":
+            target = float(smp._verif_target(bp))
+        elif cfg["target"] == "float":
+            target = float(cfg["target_arg"])
+        elif cfg["target"] == "sym":
+            target = float(_get(env, "teff", 0.5))
+        else:
+            t0, t1 = float(_get(env, "teff0", 0.3)), float(_get(env, "teff1", 0.6))
+            target = t0 + (t1 - t0) * float(bp) ** float(cfg["target_arg"])
 
         def eff(b):
             lw = (b - bp) * w
